@@ -29,9 +29,12 @@ TBegin == /\ IsEvent("begin")
              /\ LET al == Tr[l].attrs
                     at == [f \in AllFiles(t) |->
                              LET hit == {i \in 1..Len(al) : al[i].f = <<f.l, f.r>>} IN
-                             IF hit = {} THEN [own |-> "ok", grp |-> "ok", link |-> FALSE]
-                             ELSE LET a == al[CHOOSE i \in hit : TRUE] IN [own |-> a.own, grp |-> a.grp, link |-> a.link]]
-                    sec == FaultsOf(t, at, Tr[l].flags) IN
+                             IF hit = {} THEN [own |-> "ok", grp |-> "ok", link |-> FALSE, perm |-> "ok"]
+                             ELSE LET a == al[CHOOSE i \in hit : TRUE] IN
+                                  [own |-> a.own, grp |-> a.grp, link |-> a.link, perm |-> IF "perm" \in DOMAIN a THEN a.perm ELSE "ok"]]
+                    \* the settings in force are not told by the harness: they are the result of the recorded setter CALLS
+                    \* (in call order, since the last reset) folded by Security!ApplySetters
+                    sec == FaultsOf(t, at, ApplySetters(NoFlags, Tr[l].setters)) IN
                 faults' = [f \in AllFiles(t) |->
                              LET hit == {i \in 1..Len(fl) : fl[i].f = <<f.l, f.r>>} IN
                              (IF hit = {} THEN {} ELSE Seq2Set(fl[CHOOSE i \in hit : TRUE].x)) \cup sec[f]]
